@@ -12,6 +12,7 @@ mod c11;
 mod attgen;
 mod c14;
 mod c17;
+mod c19;
 mod olpc;
 mod c20;
 mod e2e;
@@ -82,6 +83,7 @@ fn main() {
         "C15" => e2e_props::run(&cfg, "C15"),
         "C14" => c14::run(&cfg),
         "C17" => c17::run(&cfg),
+        "C19" => c19::run(&cfg),
         "C20" => c20::run(&cfg),
         p => {
             eprintln!("no generator for {}", p);
